@@ -62,8 +62,19 @@ def rand_wcs(R):
         c, sn = [(0.0, 1.0), (-1.0, 0.0), (0.0, -1.0)][q - 1]
         skew = 0.0
     M = np.array([[-s * c, par * s * an * sn + skew * s], [s * sn, par * s * an * c]])
-    form = R.choice(["cd", "pc", "cdelt"])
-    if form == "cd":
+    form = R.choice(["cd", "pc", "cdelt", "crota"])
+    latfirst = R.random() < 0.15
+    if latfirst:
+        # a header whose FIRST world axis is the latitude (CTYPE1 = 'DEC--xxx'): legal FITS, produced by some pipelines
+        w.wcs.ctype = ["DEC--" + proj, "RA---" + proj]
+        w.wcs.crval = [w.wcs.crval[1], w.wcs.crval[0]]
+    if form == "crota":
+        # the old AIPS convention (also what AVM-tagged images turn into): CDELTi + CROTA2, no PC / CD cards
+        w.wcs.cdelt = [-s, par * s * an]
+        rot = R.choice([0.0, R.uniform(0, 2 * math.pi)])
+        w.wcs.crota = [0.0, math.degrees(rot)]
+        skew = 0.0
+    elif form == "cd":
         w.wcs.cd = M
     elif form == "pc":
         cd1, cd2 = s * R.uniform(0.5, 2), s * R.uniform(0.5, 2)
@@ -93,7 +104,7 @@ def rand_wcs(R):
         w.wcs.latpole = float("nan")
         w.wcs.set()
         extra = extra.replace("lonpole", "none")
-    return w, W, H, dict(proj=proj, W=W, H=H, rot=rot, skew=skew, par=par, form=form, crpix=kind, scale=s, extra=extra)
+    return w, W, H, dict(proj=proj, W=W, H=H, rot=rot, skew=skew, par=par, form=form, crpix=kind, scale=s, extra=extra, latfirst=latfirst)
 
 
 def indep_parity(w):
